@@ -187,7 +187,7 @@ class C18(Property):
             'keys with blanks / empty / unknown element; T 250..650 K, eps_r 5..100, rho 500..1500 kg/m3 (given in 4 density units), b0 '
             '0.1..10 mol/kg or default; model unit system with metre, kelvin, mole, kilogram, second, ampere magnitudes log-uniform in '
             '1e-3..1e3; log-gamma: I over 1e-9..1e3 and 0, z -4..4, a 0 or 1e-10..1e-9 m, C in {0, -0.3, random}; activity products with '
-            '1..5 species, stoichiometry -3..3, 12 % with a too short charge sequence. A case is non-trivial when it is a distinct JSON value.')
+            '1..5 species, stoichiometry -3..3 incl. 0 (spectators), charges -4..4 incl. 0 (uncharged species), C of both signs, 12 % with a too short charge sequence. A case is non-trivial when it is a distinct JSON value.')
     assumptions = ('Float instantiation of the generated functions vs CPython/numpy doubles: relative tolerance 1e-9',
                    'exact (Fraction vs Rat) ionic strength: identical text; the warning flag is compared unless |net| lies within 1e-6 '
                    'relative of the coded threshold (Python evaluates the threshold in floating point)',
@@ -205,7 +205,8 @@ class C18(Property):
         'control flow of ionic_strength (length check, accumulation loops, dict branch, `if warn`) and the final `return d <= lim` of allclose '
         'are hand-modelled (pinned anchors + guards); only the expressions b*z**2, b*z, tot/2, tot*0, tot*1e-14, abs(a-b), abs(a)*rtol+atol '
         'are translated from the source',
-        'the loops of the three activity products and the two callable classes are hand-modelled (nr * log_gamma(z[idx])): correspondence + oracle',
+        'the loops of the three activity products and the two callable classes are hand-modelled (nr * log_gamma(z[idx]), every species incl. '
+        'z = 0 and coefficient 0 — theorem activity_product_neutral_species is about that model): a skipped species in the Python is found by correspondence + oracle only',
         'permutation of the dict form: follows from perm_invariant + the by-key theorems but is not stated separately',
         'backend= of A / B / log-gamma (numpy, math, sympy): the translator maps every backend to the same Lean text; oracle uses the default backend only',
         'inputs are not modified and repeated calls reproduce (histories): oracle only — the functional model cannot express aliasing',
@@ -426,13 +427,15 @@ class C18(Property):
         lu = lambda lo, hi: float(self._dec(rng, lo, hi, 6))
         f = rng.choice(['lim', 'ext', 'dav', 'cls_lim', 'cls_ext'])
         k = rng.randint(1, 5)
-        stoich = [float(rng.choice([-3, -2, -1, 1, 1, 2, 3])) for _ in range(k)]
-        z = [float(rng.choice([-4, -3, -2, -1, 1, 2, 3, 4])) for _ in range(k)]
+        # stoichiometries include uncharged species (z = 0, any coefficient) and spectators (coefficient 0, any charge)
+        stoich = [float(rng.choice([-3, -2, -1, 0, 1, 1, 2, 3])) for _ in range(k)]
+        z = [float(rng.choice([-4, -3, -2, -1, 0, 0, 1, 2, 3, 4])) for _ in range(k)]
         a = [lu(1e-10, 1e-9) for _ in range(k)]
         short = rng.random() < 0.12
         c = {'kind': 'ap', 'f': f, 'IS': lu(1e-6, 3.0), 'stoich': stoich, 'z': z, 'a': a,
              'T': float('%.6g' % rng.uniform(250, 650)), 'eps': float('%.6g' % rng.uniform(5, 100)),
-             'rho': float('%.6g' % rng.uniform(500, 1500)), 'C': rng.choice([0.0, -0.3, 0.1]), 'short': short}
+             'rho': float('%.6g' % rng.uniform(500, 1500)),
+             'C': rng.choice([0.0, -0.3, 0.1, -0.1, 0.3, float('%.4g' % rng.uniform(-0.5, 0.5))]), 'short': short}
         if f.startswith('cls'):
             cc = [lu(1e-6, 1.0) for _ in range(k)]
             if rng.random() < 0.5 and k >= 2 and z[-1] != 0:      # make the molalities neutral (exactly, when representable)
@@ -965,7 +968,11 @@ class C18(Property):
         if kd == 'lg':
             return 'lg:%s%s%s%s' % (c['f'], ':defaults' if c['defaults'] else '', ':units' if c['units'] else '', ':I=0' if c['IS'] == 0 else '')
         if kd == 'ap':
-            return 'ap:%s%s' % (c['f'], ':short' if c['short'] else '')
+            k = min(len(c['stoich']), len(c['z']))
+            neutral = any(c['z'][i] == 0 and c['stoich'][i] != 0 for i in range(k))
+            spect = any(c['stoich'][i] == 0 for i in range(len(c['stoich'])))
+            return 'ap:%s%s%s%s%s' % (c['f'], ':short' if c['short'] else '', ':neutral-species' if neutral else '',
+                                      ':spectator' if spect else '', ':C=0' if c['C'] == 0 else '')
         return kd
 
 
